@@ -225,8 +225,11 @@ def confirm_diffs(chk, diffs):
             confirmed.append(d)
         else:
             chk.count("oracle:nondeterministic-response")
-    for d in confirmed[:3]:
-        attribute_diff(chk, d)
+    done = set()
+    for d in confirmed:
+        if d["handler"] not in done and len(done) < 3:
+            done.add(d["handler"])
+            attribute_diff(chk, d)
     return confirmed
 
 
@@ -247,6 +250,7 @@ def attribute_diff(chk, d):
                                       "relation_to_other_settings": kind or "none (random token)"})
                 if len(d["culprits"]) == 1:
                     d["config2"], d["b"] = h, o[0]
+        shrink_pair(chk, d)
     except Exception as e:  # attribution is a convenience
         chk.notes.append("attribution of a cfg/cfg' difference failed: %s" % e)
 
@@ -256,6 +260,53 @@ def still_leaks(out, token, form, usernames):
         return False
     b = G.leak_forms(token, usernames).get(form)
     return b is not None and b in G.response_blob(out[0])
+
+
+def _candidates(cfg):
+    cands = []
+    for sec, v in cfg.items():
+        cands.append((sec, None))
+        if isinstance(v, dict):
+            for name, m in v.items():
+                if isinstance(m, dict):
+                    cands.append((sec, name))
+    return cands
+
+
+def _without(c, drops):
+    out = {}
+    for sec, v in c.items():
+        if (sec, None) in drops:
+            continue
+        if isinstance(v, dict):
+            out[sec] = {k: x for k, x in v.items() if (sec, k) not in drops}
+        else:
+            out[sec] = v
+    return out
+
+
+def shrink_pair(chk, d):
+    """Greedy: drop sections / modules from BOTH configurations while the two responses still differ."""
+    req = [(d["method"], d["path"], d["body"], None)]
+    h = d["handler"]
+
+    def differ(oa, ob):
+        return not isinstance(oa, str) and not isinstance(ob, str) and G.canon_response(oa[0], h) != G.canon_response(ob[0], h)
+    try:
+        cands = _candidates(d["config"])
+        lines = []
+        for c in cands:
+            lines += [G.case_line(_without(d["config"], {c}), d["world"], req), G.case_line(_without(d["config2"], {c}), d["world"], req)]
+        outs = run_lines(chk, lines, "shrinkpair")
+        ok = {c for k, c in enumerate(cands) if differ(outs[2 * k], outs[2 * k + 1])}
+        if not ok:
+            return
+        a, b = _without(d["config"], ok), _without(d["config2"], ok)
+        o = run_lines(chk, [G.case_line(a, d["world"], req), G.case_line(b, d["world"], req)], "shrinkpair2")
+        if differ(o[0], o[1]):
+            d["config"], d["config2"], d["a"], d["b"] = a, b, o[0][0], o[1][0]
+    except Exception as e:  # shrinking is a convenience
+        chk.notes.append("shrink of a cfg/cfg' pair failed: %s" % e)
 
 
 def shrink_leak(chk, leak, usernames):
@@ -402,7 +453,13 @@ def run(chk, failed):
         report_leak(chk, lk, sorted({str(v.get("username")) for sec in G.PW_SECTIONS for v in lk["config"].get(sec, {}).values()
                                      if isinstance(v, dict) and v.get("username")}), bad_rows or [], k)
         k += 1
-    for i, d in enumerate(diffs[:3]):
+    by_handler = {}
+    for d in diffs:
+        if d.get("culprits") is not None:      # attributed and shrunk ones first
+            by_handler.setdefault(d["handler"], d)
+    for d in diffs:
+        by_handler.setdefault(d["handler"], d)
+    for i, d in enumerate(list(by_handler.values())[:3]):
         chk.violation("differs_%d" % i, {
             "kind": "input", "probe": "httpserver/TestVerifProbeHttpcfg", "request": "%s %s" % (d["method"], d["path"]),
             "method": d["method"], "path": d["path"], "body": d["body"], "handler": d["handler"], "config": d["config"],
